@@ -311,6 +311,7 @@ BW_MidiSequencer::BW_MidiSequencer() :
     m_loopHooksOnly(false),
     m_fullSongTimeLength(0.0),
     m_postSongWaitDelay(1.0),
+    m_loopStartExplicit(false),
     m_loopStartTime(-1.0),
     m_loopEndTime(-1.0),
     m_tempoMultiplier(1.0),
@@ -567,6 +568,7 @@ double BW_MidiSequencer::getTempoMultiplier()
 void BW_MidiSequencer::buildSmfSetupReset(size_t trackCount)
 {
     m_fullSongTimeLength = 0.0;
+    m_loopStartExplicit = false;
     m_loopStartTime = -1.0;
     m_loopEndTime = -1.0;
     m_loopFormat = Loop_Default;
@@ -846,6 +848,8 @@ bool BW_MidiSequencer::buildSmfTrackData(const std::vector<std::vector<uint8_t> 
             );
         }
     }
+
+    m_loopStartExplicit = gotGlobalLoopStart && !m_loop.invalidLoop;
 
     buildTimeLine(temposList, loopStartTicks, loopEndTicks);
 
@@ -1242,6 +1246,9 @@ bool BW_MidiSequencer::processEvents(bool isSeek)
                 if(isSeek && (evt.type == MidiEvent::T_NOTEON))
                     continue;
                 handleEvent(tk, evt, track.lastHandledEvent);
+
+                if(isSeek)
+                    m_loop.caughtStart = false; // A seek must not record its destination as the loop start
 
                 if(m_loop.caughtStart)
                 {
@@ -2025,6 +2032,9 @@ void BW_MidiSequencer::handleEvent(size_t track, const BW_MidiSequencer::MidiEve
         {
             if(m_interface->onSongStart)
                 m_interface->onSongStart(m_interface->onSongStart_userData);
+            // Without a loop start marker every pass through the song begin is a pass through the loop start
+            if(!m_loopStartExplicit)
+                m_loop.caughtStart = true;
             return;
         }
 
@@ -2248,7 +2258,7 @@ void BW_MidiSequencer::rewind()
 
     m_loop.loopsCount = m_loopCount;
     m_loop.reset();
-    m_loop.caughtStart  = true;
+    m_loop.caughtStart  = !m_loopStartExplicit;
     m_loop.temporaryBroken = false;
     m_time.reset();
 }
